@@ -236,6 +236,21 @@ fn main() {
             } else {
                 h.run(&mut [&mut mon], &mut r);
                 r.count("random_order_histories", 1);
+                // directed: chain tips exactly 100 and 101 blocks above the highest scanned block
+                // (first and second tip for which that block counts as stable)
+                if h.aborted.is_none() {
+                    for d in [100u32, 101] {
+                        if let Some(&top) = h.w.scanned.keys().next_back() {
+                            if h.w.told_tip.map_or(true, |t| t < top + d) {
+                                h.tell_tip_above_top(d, &mut [&mut mon], &mut r);
+                                r.count("chain_tips_told_exactly_at_stability_edge", 1);
+                                if h.cfg.shard_start {
+                                    r.count("chain_tips_told_exactly_at_stability_edge_with_subtree_roots_known", 1);
+                                }
+                            }
+                        }
+                    }
+                }
             }
             let sig = (cfg.pools.clone(), cfg.out_of_order, cfg.max_batch, h.rewinds_done, suggested_mode, h.cfg.n_accounts, mon.prios_seen.keys().copied().collect::<Vec<_>>());
             r.case(&sig, mon.queue_checks > 5);
